@@ -4,14 +4,14 @@ from vverif import seq
 from vverif.core import Result, HarnessError
 
 LEVEL = 'exploration'
-RULE = ('every put sequence of length <= 3 (quick) / 4 (thorough) over 14 items {int 0,1,5,-1,4096,4097,INT_MAX; a 16-byte POD; '
-        'strings of length 0,1,5,4092 (largest that fits),4096; an 8-byte fixed buffer} is built with the real put primitives '
+RULE = ('every put sequence of length <= 3 over 14 items {int 0,1,5,-1,4096,4097,INT_MAX; a 16-byte POD; '
+        'strings of length 0,1,5,4092 (largest that fits),4096; an 8-byte fixed buffer} (thorough: also every sequence of 4 puts over the 8 items i1,i-1,i4096,pod16,s0,s5,s4092,f8) is built with the real put primitives '
         '(puts that overflow maxSize must throw), its data buffer is copied byte for byte into a message prepared with '
         'prepForReading(), and the matching get sequence plus every get sequence of length <= 4 / 5 over {getInt, getPod(16), '
         'getString, getFixed(8)} is run on it and on a copy-constructed message; then the same for raw-buffer mutants: type '
         'field {0,other,-1}, size field {0,1,size-1,size+1,4095,4096,4097,4124,8292,INT_MAX,SIZE_MAX,(size_t)INT_MIN}, every '
         'string length field {0,-1,L-1,L+1,rest,rest+1,4096,4097,INT_MAX,INT_MIN} (thorough: combined with 5 size values), '
-        'get sequences <= 3 / 4; a case is one put sequence; non-trivial = (buffer, get sequence) pairs in which the '
+        'get sequences <= 3; a case is one put sequence; non-trivial = (buffer, get sequence) pairs in which the '
         'reference demanded a rejection or a type mismatch, plus accepted sequences that consumed data')
 ASSUME = ['src/ipc/TypedMsgHdr.cc of the current tree as built (ASan) by the scratch tree make (ipc/TypedMsgHdr.o), linked with String.o, libbase, libcompatsquid and the tests/ stubs for debug, mem and SBuf',
           'a received datagram is modelled as the bytes of the data buffer {type, size, raw[maxSize]}; UDS datagrams arrive '
